@@ -454,6 +454,24 @@ M('c17-include-budget-dropped', 'C17', 'src/extensions/qconfig.c',
   'LP2', 'qconfig_parse_file', 'the include budget no longer leaves the loop')
 
 
+M('c04-stamp-before-copy', 'C04', 'src/containers/qtreetbl.c',
+  "        } else if (cursor->tid != tid) {\n            void *name = cursor->name;",
+  "        } else if (cursor->tid != tid) {\n            cursor->tid = tid;\n            void *name = cursor->name;",
+  'T10', 'qtreetbl_getnext', 'node stamped as visited before the fallible copies')
+M('c05-empty-value-copy-is-enomem', 'C05', 'src/containers/qhashtbl.c',
+  "            data = malloc(obj->size);\n            if (data == NULL) {",
+  "            data = qmemdup(obj->data, obj->size);\n            if (data == NULL) {",
+  'T8', 'qhashtbl_get', 'qmemdup returns NULL for an empty value, reported as ENOMEM')
+M('c09-tostring-strlen', 'C09', 'src/containers/qlist.c',
+  "        size_t size = obj->size;\n        // do not copy tailing '\\0'\n        if (*(char *) (obj->data + (size - 1)) == '\\0')\n            size -= 1;",
+  "        size_t size = strlen((char *) obj->data);\n        if (size > obj->size) size = obj->size;",
+  'E7', 'qlist_tostring', 'flattener length taken from the content instead of the recorded size')
+M('c09-toarray-advance', 'C09', 'src/containers/qlist.c',
+  "        memcpy(dp, obj->data, obj->size);\n        dp += obj->size;",
+  "        memcpy(dp, obj->data, obj->size);\n        dp += sizeof(obj->size);",
+  'E7', 'qlist_toarray', 'output cursor advances by something other than the copied length')
+
+
 def run_selftest(prop, rep, rule_fn, config='cmake-release'):
     """Apply every mutant of `prop` to a scratch copy, run rule_fn(prog, report) on it, and
     require a finding of the expected rule (and function)."""
